@@ -213,21 +213,23 @@ theorem resultRows_rel (O : Oracles) (q : AggStmt) {v1 v2 : GroupMap Value} (h :
     have ha : ∀ hv, acceptGroup O q hv k s1 = acceptGroup O q hv k s2 := fun hv => acceptGroup_rel O q hv k hs
     simp only [ha, ih]
 
-theorem checkRows_rel (O : Oracles) (q : AggStmt) {v1 v2 : GroupMap Value} (h : GmEq v1 v2) (u : Unit) :
-    (v1.foldlM (fun (_ : Unit) (g : List Value × List (Nat × Value)) => do
-        let _ ← rowOf O q g.1 g.2 (enumFrom 0 q.items)
-        pure ()) u : Outcome Unit) =
-    (v2.foldlM (fun (_ : Unit) (g : List Value × List (Nat × Value)) => do
-        let _ ← rowOf O q g.1 g.2 (enumFrom 0 q.items)
-        pure ()) u : Outcome Unit) := by
-  induction h generalizing u with
+theorem aggColumn_rel (O : Oracles) (q : AggStmt) (i : Nat) (item : AggItem) {v1 v2 : GroupMap Value} (h : GmEq v1 v2) :
+    aggColumn O q i item v1 = aggColumn O q i item v2 := by
+  induction h with
   | nil => rfl
   | @cons k s1 s2 r1 r2 hs _ ih =>
-    simp only [List.foldlM_cons]
-    rw [rowOf_rel O q k hs]
-    congr 1
-    funext u'
-    exact ih u'
+    unfold aggColumn
+    rw [cellOf_rel O q i item k hs, ih]
+
+/-- the column pass of `execute_result` (`extract_result_rows_by_column`) -/
+theorem checkRows_rel (O : Oracles) (q : AggStmt) {v1 v2 : GroupMap Value} (h : GmEq v1 v2) (items : List (Nat × AggItem)) :
+    aggColumns O q v1 items = aggColumns O q v2 items := by
+  induction items with
+  | nil => rfl
+  | cons p rest ih =>
+    obtain ⟨i, item⟩ := p
+    unfold aggColumns
+    rw [aggColumn_rel O q i item h, ih]
 
 def ResRel (p1 p2 : AggState × RowOut) : Prop := StRel p1.1 p2.1 ∧ p1.2 = p2.2
 
@@ -236,10 +238,10 @@ theorem aggResult_rel (O : Oracles) (q : AggStmt) {a b : AggState} (h : StRel a 
   have hp := publishPercentiles_rel h
   unfold aggResult
   simp only
-  have e1 := checkRows_rel O q hp.vals ()
+  have e1 := checkRows_rel O q hp.vals (enumFrom 0 q.items)
   have e2 := resultRows_rel O q hp.vals []
   refine ORel.bind (R := Eq) ?_ (fun _ _ _ => ?_)
-  · have : ∀ x y : Outcome Unit, x = y → ORel Eq x y := fun x y e => e ▸ ORel.refl x
+  · have : ∀ x y : Outcome (List (List Value)), x = y → ORel Eq x y := fun x y e => e ▸ ORel.refl x
     exact this _ _ e1
   · rw [e2]
     exact ORel.bind (ORel.refl _) (fun rows rows' e => by subst e; exact ⟨hp, rfl⟩)
